@@ -121,7 +121,16 @@ func (vm *vm) run() error {
 			vm.prog.disasmInstr(vm.pc)
 		}
 
-		switch instr := readOp(); instr {
+		instr := readOp()
+
+		if vm.tos == stackSize {
+			switch instr {
+			case opCONST, opZERO, opONE, opTRUE, opFALSE, opNIL, opGETLOCAL, opGETFIELD:
+				return vm.runtimeError("stack overflow")
+			}
+		}
+
+		switch instr {
 
 		case opCONST:
 			// ( -- x )
@@ -174,10 +183,13 @@ func (vm *vm) run() error {
 				pop()
 
 			case instr == opMUL && isString(peek(1)) && isInt(peek(0)):
+				if peek(0).(int) < 0 {
+					return vm.runtimeError("MUL: negative repeat count")
+				}
 				b, a := pop().(int), pop().(string)
 				push(strings.Repeat(a, b))
 
-			case instr == opEQ:
+			case instr == opEQ && !(isBlock(peek(1)) && isBlock(peek(0))):
 				b, a := pop(), pop()
 				push(a == b)
 
@@ -248,6 +260,9 @@ func (vm *vm) run() error {
 				Type:   readConst().(string),
 				Name:   readConst().(string),
 				Fields: map[string]any{},
+			}
+			if vm.blockTos == blockStackSize {
+				return vm.runtimeError("too many nested blocks")
 			}
 			vm.blockStack[vm.blockTos] = blk
 			vm.blockTos++
